@@ -13,6 +13,8 @@
  *   - the owner's refcount is held during dispatch.
  * 'dispatch' is what a back-end does when its watcher triggers: upump_common_dispatch, and only
  * when the mock back-end is active. */
+#define C13_FAULTS 1      /* built with allocation fault injection (engine/faultmalloc.h) */
+#include "faultmalloc.h"
 #include "C13_model.h"
 #include "upipe/upump_common.h"
 
